@@ -515,10 +515,11 @@ def wrap(
     Also ensures that the `initial_indent` and `subsequent_indent` are not taken into
     account for the wrapping position.
     """
+    # Empty and whitespace-only paragraphs (and texts) still produce one empty line
     [first, *rest] = [
         line
-        for paragraph in text.splitlines()
-        for line in (textwrap.wrap(paragraph, width, **kwargs) if paragraph else [""])
+        for paragraph in text.splitlines() or [""]
+        for line in (textwrap.wrap(paragraph, width, **kwargs) or [""])
     ]
     # Manually take care of `initial_indent` and `subsequent_indent` since we don't
     # want them to count towards `width`
